@@ -238,6 +238,7 @@ def check_derived_state(ctx, rep, rid, prog, scope=None):
             continue
         reads = {r for r in trans[f.key]["reads"] if r.startswith(f.cls + "::")} - ownw
         stale = []
+        partial = []
         for g in prog.funcs.values():
             if g.key == f.key or g.kind in ("CXXConstructorDecl", "CXXDestructorDecl") and g.cls == f.cls:
                 continue
@@ -247,10 +248,19 @@ def check_derived_state(ctx, rep, rid, prog, scope=None):
             if not touched:
                 continue
             if gw & ownw or (trans[g.key]["writes"] & ownw):
+                bad = _path_without_reset(ctx, g, touched, ownw)
+                if bad is not None:
+                    partial.append((g, sorted(short(t) for t in touched), bad))
                 continue
             stale.append((g, sorted(short(t) for t in touched)))
         what = "const %s keeps derived state in %s" % (f.short, sorted(short(w) for w in ownw))
-        if stale:
+        if partial and not stale:
+            g, t, bad = partial[0]
+            rep.violation(rid, bad, g, what,
+                          "%s modifies %s, which %s reads, and leaves through a path on which the derived state is neither reset nor cleared "
+                          "(it is maintained incrementally or left as it is): the cached result can go stale" % (g.short, t, f.short),
+                          key="%s|derived state not reset on a path of %s" % (f.short, g.short))
+        elif stale:
             g, t = stale[0]
             rep.violation(rid, g.decl, g, what,
                           "%s modifies %s, which %s reads, without invalidating the derived state (%d such writer(s): %s): the cached result goes stale" % (
@@ -259,6 +269,75 @@ def check_derived_state(ctx, rep, rid, prog, scope=None):
         else:
             rep.holds(rid, f.decl, f, what, "every writer of what it reads also invalidates it")
     return n
+
+
+def _is_reset(ctx, x, ownw):
+    """x is `member = literal`, `member.clear()` / `.reset()` / `.assign(...)`, or `member = {}` for a member in ownw."""
+    k = x.get("kind")
+    if k == "BinaryOperator" and x.get("opcode") == "=":
+        l, r = children(x)
+        lc, rc = canon(l), canon(r)
+        return lc[0] == "field" and lc[1] in ownw and rc[0] in ("lit", "enum")
+    if k == "CXXMemberCallExpr":
+        ci = callee_info(x)
+        if ci and ci["name"] in ("clear", "reset") and ci["obj"] is not None:
+            oc = canon(ci["obj"])
+            return oc[0] == "field" and oc[1] in ownw
+    if k == "CXXOperatorCallExpr":
+        ci = callee_info(x)
+        if ci and ci["name"] == "operator=":
+            ch = children(x)
+            if len(ch) >= 3:
+                lc, rc = canon(ch[1]), canon(ch[2])
+                return lc[0] == "field" and lc[1] in ownw and rc[0] in ("lit", "enum", "construct") and len(rc) <= 2
+    return False
+
+
+def _path_without_reset(ctx, g, touched, ownw):
+    """A function that writes inputs of a cache and also touches the cache: is there a path entry -> input write -> exit that
+    passes through no *reset* of the cache? Returns the offending input-write node, or None."""
+    if g.body is None:
+        return None
+    cg = cfg_of(g)
+    trans = ctx.eff.transitive()
+    s = ctx.eff.summary(g)
+    wnodes = []
+    for q in touched:
+        for x, u in s["writes"].get(q, []) + s["escapes"].get(q, []):
+            n = cg.node_for(u.node) or cg.node_for(x)
+            if n is not None:
+                wnodes.append((n, x))
+    resets = []
+    for x in walk(g.body):
+        if _is_reset(ctx, x, ownw):
+            n = cg.node_for(x)
+            if n is not None:
+                resets.append(n)
+        elif x.get("kind") in ("CXXMemberCallExpr", "CallExpr"):
+            _ci, fs = ctx.eff.resolve_callee(x)
+            for h in fs:
+                if h.key != g.key and h.body is not None and _always_resets(ctx, h, ownw):
+                    n = cg.node_for(x)
+                    if n is not None:
+                        resets.append(n)
+    for n, x in wnodes:
+        if n in resets:
+            continue
+        before = cg.entry is n or n.idx in cg.reachable_from([cg.entry], avoid=resets)
+        after = cg.exit.idx in cg.reachable_from(n.succ, avoid=resets)
+        if before and after:
+            return x
+    return None
+
+
+def _always_resets(ctx, h, ownw, _depth=0):
+    cg = cfg_of(h)
+    for x in walk(h.body):
+        if _is_reset(ctx, x, ownw):
+            n = cg.node_for(x)
+            if n is not None and cg.exit.idx not in cg.reachable_from([cg.entry], avoid=[n]):
+                return True
+    return False
 
 
 # ---- binary search vs sort order ------------------------------------------------------------
@@ -450,3 +529,71 @@ def check_writers(ctx, rep, rid, field_q, allowed, label, exclude_class=None, ig
     else:
         rep.holds(rid, "-", None, "%s writers" % label, "%s" % (sorted({f.short for f, _x, _u in ws}) or "none"))
     return ws
+
+
+# ---- accumulator width ---------------------------------------------------------------------------
+
+import re as _re
+
+_WIDTH = {"bool": 1, "char": 8, "short": 16, "int": 32, "unsigned int": 32, "float": 32, "long": 64, "long long": 64, "unsigned long": 64,
+          "unsigned long long": 64, "double": 64, "long double": 80}
+
+
+def check_accumulators(ctx, rep, rid, funcs, control=False):
+    """std::accumulate / std::reduce / std::inner_product: the accumulator has the type of the *init* argument. An init of a type
+    narrower than the element type (the literal 0 over a vector<long long>) silently truncates every partial sum.
+    Returns the number of calls examined."""
+    from ..model import desugared
+    n = 0
+    for f in funcs:
+        if f.body is None:
+            continue
+        for x in walk(f.body):
+            if x.get("kind") != "CallExpr":
+                continue
+            ci = callee_info(x)
+            if not ci or ci["name"] not in ("accumulate", "reduce", "inner_product", "transform_reduce") or len(ci["args"]) < 3:
+                continue
+            init = ci["args"][3] if ci["name"] == "inner_product" and len(ci["args"]) > 3 else ci["args"][2]
+            ti = (desugared(init) or qt(init) or "").replace("const ", "").strip()
+            it = (desugared(ci["args"][0]) or qt(ci["args"][0]) or "")
+            m = _re.search(r"__normal_iterator<(?:const )?([\w ]+?) ?\*", it) or _re.search(r"^(?:const )?([\w ]+?) ?\*", it)
+            if not m:
+                rep.unknown(rid, x, f, "%s over %s" % (ci["name"], it[:60]), "element type of the range not recognised")
+                continue
+            te = m.group(1).strip()
+            n += 1
+            wi, we = _WIDTH.get(ti), _WIDTH.get(te)
+            what = "%s over %s elements with a %s accumulator" % (ci["name"], te, ti)
+            if wi is None or we is None:
+                rep.holds(rid, x, f, what, "non-scalar accumulator")
+            elif wi < we or (ti in ("int", "long", "long long", "unsigned int") and te in ("float", "double")):
+                rep.violation(rid, x, f, what, "the accumulator takes the type of the initial value: every partial sum is truncated to %s" % ti,
+                              key="%s|narrow accumulator" % f.short)
+            else:
+                rep.holds(rid, x, f, what)
+    return n
+
+
+def nonempty_fact(c, val):
+    """If the branch condition c with truth value val implies that a container is non-empty, return the container's canonical
+    form: !X.empty(), X.size() > 0, X.size() != 0, X.size() >= 1, 0 < X.size(), X.size() == n / >= n with n >= 1 ..."""
+    if c[0] == "call" and c[1] == "empty" and len(c) == 3 and val is False:
+        return c[2]
+    if c[0] == "bin" and c[1] in ("<", "<=", ">", ">=", "==", "!="):
+        op, a, b = c[1], c[2], c[3]
+        flip = {"<": ">", "<=": ">=", ">": "<", ">=": "<=", "==": "==", "!=": "!="}
+        neg = {"<": ">=", "<=": ">", ">": "<=", ">=": "<", "==": "!=", "!=": "=="}
+        if b[0] == "call" and b[1] == "size" and len(b) == 3 and a[0] == "lit":
+            op, a, b = flip[op], b, a
+        if not (a[0] == "call" and a[1] == "size" and len(a) == 3 and b[0] == "lit"):
+            return None
+        try:
+            n = int(str(b[1]).rstrip("uUlL"))
+        except ValueError:
+            return None
+        if not val:
+            op = neg[op]
+        if (op == ">" and n >= 0) or (op == ">=" and n >= 1) or (op == "!=" and n == 0) or (op == "==" and n >= 1):
+            return a[2]
+    return None
